@@ -1,0 +1,134 @@
+//! Verification hooks (compiled only with `--cfg gothenburgbitfactory_taskchampion_verif`).
+//!
+//! Nothing in this module exists in a normal build. It gives a verification harness outside the
+//! crate access to a few otherwise private pieces: the object-store server over an in-memory
+//! store, the sealing code, and named failpoints between the internal steps of a backend.
+
+#[cfg(feature = "cloud")]
+pub use super::cloud::verif::{
+    set_random_source, CloudHandle, GateDecision, GateEvent, GateFn, GateOp, LogEntry, MemService,
+    MemStore,
+};
+
+#[cfg(feature = "encryption")]
+mod seal {
+    use crate::errors::Result;
+    use crate::server::encryption::{Cryptor, Sealed, Unsealed};
+    use uuid::Uuid;
+
+    /// Direct access to the documented sealed format.
+    #[derive(Clone)]
+    pub struct SealKey(Cryptor);
+
+    impl SealKey {
+        pub fn derive(salt: &[u8], secret: &[u8]) -> Result<Self> {
+            Ok(Self(Cryptor::new(salt, &secret.to_vec().into())?))
+        }
+        pub fn seal(&self, version_id: Uuid, payload: Vec<u8>) -> Result<Vec<u8>> {
+            Ok(self
+                .0
+                .seal(Unsealed {
+                    version_id,
+                    payload,
+                })?
+                .into())
+        }
+        pub fn unseal(&self, version_id: Uuid, sealed: Vec<u8>) -> Result<Vec<u8>> {
+            Ok(self
+                .0
+                .unseal(Sealed {
+                    version_id,
+                    payload: sealed,
+                })?
+                .into())
+        }
+    }
+}
+#[cfg(feature = "encryption")]
+pub use seal::SealKey;
+
+mod failpoints {
+    use crate::errors::{Error, Result};
+    use std::cell::RefCell;
+    use std::collections::HashMap;
+
+    #[derive(Clone, Copy, Debug, PartialEq, Eq)]
+    pub enum FailAction {
+        Off,
+        /// return an error at the failpoint
+        Err,
+        /// abort the process at the failpoint
+        Abort,
+    }
+
+    #[derive(Default)]
+    struct Plan {
+        /// name -> (fire on the n-th hit from now, action)
+        armed: HashMap<String, (u32, FailAction)>,
+        hits: HashMap<String, u32>,
+    }
+
+    thread_local! {
+        static PLAN: RefCell<Plan> = RefCell::new(Plan::default());
+    }
+
+    /// Arm `name` to take `action` on its `nth_hit`-th hit (1 = next hit) on this thread.
+    pub fn set_failpoint(name: &str, nth_hit: u32, action: FailAction) {
+        PLAN.with(|p| {
+            p.borrow_mut()
+                .armed
+                .insert(name.to_string(), (nth_hit.max(1), action));
+        });
+    }
+
+    pub fn clear_failpoints() {
+        PLAN.with(|p| {
+            let mut p = p.borrow_mut();
+            p.armed.clear();
+            p.hits.clear();
+        });
+    }
+
+    /// How often each failpoint was reached on this thread since the last `clear_failpoints`.
+    pub fn failpoint_hits() -> Vec<(String, u32)> {
+        PLAN.with(|p| {
+            let mut v: Vec<(String, u32)> = p
+                .borrow()
+                .hits
+                .iter()
+                .map(|(k, v)| (k.clone(), *v))
+                .collect();
+            v.sort();
+            v
+        })
+    }
+
+    #[allow(dead_code)]
+    pub(crate) fn failpoint(name: &'static str) -> Result<()> {
+        let action = PLAN.with(|p| {
+            let mut p = p.borrow_mut();
+            *p.hits.entry(name.to_string()).or_insert(0) += 1;
+            match p.armed.get_mut(name) {
+                Some((n, action)) => {
+                    if *n <= 1 {
+                        let a = *action;
+                        p.armed.remove(name);
+                        a
+                    } else {
+                        *n -= 1;
+                        FailAction::Off
+                    }
+                }
+                None => FailAction::Off,
+            }
+        });
+        match action {
+            FailAction::Off => Ok(()),
+            FailAction::Err => Err(Error::Server(format!("verif: failpoint {name}"))),
+            FailAction::Abort => std::process::abort(),
+        }
+    }
+}
+#[allow(unused_imports)]
+pub(crate) use failpoints::failpoint;
+pub use failpoints::{clear_failpoints, failpoint_hits, set_failpoint, FailAction};
